@@ -232,7 +232,10 @@ def reduplicate(exprs):
         else:
             if visited:
                 children = args.pop()
-                if any(map(lambda x: x[0].id != x[1].id, zip(expr, children))):
+                # also duplicate shared nodes without any leaf node, e.g., ()
+                if expr.id in ids or any(
+                        map(lambda x: x[0].id != x[1].id, zip(expr,
+                                                               children))):
                     node = Node(*children)
                     args[-1].append(node)
                     ids.add(node.id)
